@@ -78,6 +78,68 @@ Proof.
     unfold blen. rewrite S, length_zeros. lia.
 Qed.
 
+(* ---- GetBuffer into a buffer of the recorded (add-time) length ---- *)
+Lemma enc_total_acc els : forall a,
+  fold_left (fun a ev => (a + N.to_nat (elem_len (fst ev) (snd ev)))%nat) els a =
+  (a + N.to_nat (record_len els))%nat.
+Proof.
+  unfold record_len. induction els as [|[e v] r IH]; intros a; cbn [fold_left fst snd]; [cbn; lia|].
+  rewrite IH. rewrite (fold_len_acc r (0 + elem_len e v)). lia.
+Qed.
+Lemma enc_total_eq els : enc_total els = N.to_nat (record_len els).
+Proof. unfold enc_total. now rewrite enc_total_acc. Qed.
+
+(* a record whose elements were not changed since they were added: GetBuffer is the lazily
+   encoded buffer of Codec.get_buffer (the length repair never fires) *)
+Lemma get_buffer_n_eq els : get_buffer_n (record_len els) els = get_buffer els.
+Proof.
+  unfold get_buffer_n, get_buffer. destruct (Nat.eqb (N.to_nat (record_len els)) 0); [reflexivity|].
+  destruct (get_buffer_loop _ _ _ _) as [[b k]| | |]; cbn [obind]; try reflexivity.
+  rewrite enc_total_eq, Nat.eqb_refl. cbn [negb]. rewrite andb_false_r. reflexivity.
+Qed.
+Lemma get_buffer_n_orig_eq els : get_buffer_n_orig (record_len els) els = get_buffer els.
+Proof. reflexivity. Qed.
+
+(* whatever the element values are now, the buffer has the recorded length *)
+Lemma get_buffer_n_shape len els :
+  match get_buffer_n len els with
+  | Ok (b, _) => blen b = len | Panic => True | _ => False end.
+Proof.
+  unfold get_buffer_n. destruct (Nat.eqb_spec (N.to_nat len) 0) as [Z|NZ].
+  - unfold blen. cbn [length]. lia.
+  - pose proof (get_buffer_loop_shape els (zeros (N.to_nat len)) 0 0) as S.
+    destruct (get_buffer_loop _ _ _ _) as [[b k]| | |]; cbn [obind]; auto.
+    unfold blen. rewrite S, length_zeros. lia.
+Qed.
+Lemma get_buffer_n_orig_shape len els :
+  match get_buffer_n_orig len els with
+  | Ok (b, _) => blen b = len | Panic => True | _ => False end.
+Proof.
+  unfold get_buffer_n_orig. destruct (Nat.eqb_spec (N.to_nat len) 0) as [Z|NZ].
+  - unfold blen. cbn [length]. lia.
+  - pose proof (get_buffer_loop_shape els (zeros (N.to_nat len)) 0 0) as S.
+    destruct (get_buffer_loop _ _ _ _) as [[b k]| | |]; auto.
+    unfold blen. rewrite S, length_zeros. lia.
+Qed.
+(* the two differ only in the error count *)
+Lemma get_buffer_n_bytes len els :
+  omap fst (get_buffer_n len els) = omap fst (get_buffer_n_orig len els).
+Proof.
+  unfold get_buffer_n, get_buffer_n_orig. destruct (Nat.eqb (N.to_nat len) 0); [reflexivity|].
+  destruct (get_buffer_loop _ _ _ _) as [[b k]| | |]; reflexivity.
+Qed.
+
+(* no encode error (in the repaired code): the current values occupy exactly the recorded length *)
+Lemma get_buffer_n_noerr len els b :
+  get_buffer_n len els = Ok (b, 0%nat) -> len <> 0 -> len = record_len els.
+Proof.
+  unfold get_buffer_n. destruct (Nat.eqb_spec (N.to_nat len) 0) as [Z|NZ]; [lia|]. intros H _.
+  destruct (get_buffer_loop _ _ _ _) as [[b' k]| | |]; cbn [obind] in H; try discriminate.
+  destruct k; cbn [Nat.eqb andb] in H.
+  - rewrite enc_total_eq in H. destruct (Nat.eqb_spec (N.to_nat (record_len els)) (N.to_nat len)); cbn [negb] in H; [lia|discriminate].
+  - discriminate.
+Qed.
+
 (* ---- data record lengths: the two construction paths agree ---- *)
 Lemma data_len_v1_eq els : data_len_v1 els = record_len els.
 Proof. reflexivity. Qed.
@@ -335,9 +397,23 @@ Lemma good_rec_buffer r : good_rec r ->
 Proof.
   destruct r as [tid fc els buf m|tid fc els len]; unfold rec_buffer; cbn [good_rec rec_buffer_e rec_len omap fst].
   - reflexivity.
-  - intros ->. pose proof (get_buffer_shape els) as S.
-    destruct (get_buffer els) as [[b k]| | |]; cbn [omap fst]; exact S.
+  - intros _. pose proof (get_buffer_n_shape len els) as S.
+    destruct (get_buffer_n len els) as [[b k]| | |]; cbn [omap fst]; exact S.
 Qed.
+(* the same without any hypothesis: the buffer of a data record has the recorded length even
+   when its element values changed since *)
+Lemma rec_buffer_len r :
+  match rec_buffer r with Ok b => blen b = rec_len r | Panic => True | _ => False end.
+Proof.
+  destruct r as [tid fc els buf m|tid fc els len]; unfold rec_buffer; cbn [rec_buffer_e rec_len omap fst].
+  - reflexivity.
+  - pose proof (get_buffer_n_shape len els) as S.
+    destruct (get_buffer_n len els) as [[b k]| | |]; cbn [omap fst]; exact S.
+Qed.
+(* an unchanged record: GetBuffer as specified in Codec.v *)
+Lemma good_rec_buffer_e tid fc els len :
+  good_rec (DRec tid fc els len) -> rec_buffer_e (DRec tid fc els len) = get_buffer els.
+Proof. cbn [good_rec rec_buffer_e]. intros ->. apply get_buffer_n_eq. Qed.
 
 Lemma window_exact b : window (length b) b = b.
 Proof. unfold window. rewrite firstn_all, Nat.sub_diag. cbn. apply app_nil_r. Qed.
